@@ -303,6 +303,16 @@ func genErrFlow(dir string) error {
 			case *ast.Ident:
 				return f.Name
 			case *ast.SelectorExpr:
+				// methods of hash.Hash* values and of bytes.Buffer are named by the receiver's TYPE, so that the
+				// whitelist of calls that cannot fail does not depend on how a variable or field happens to be called
+				if tv, ok := info.Types[f.X]; ok && tv.Type != nil {
+					ts := tv.Type.String()
+					ts = strings.TrimPrefix(ts, "*")
+					switch ts {
+					case "hash.Hash", "hash.Hash32", "hash.Hash64", "bytes.Buffer":
+						return "(" + ts + ")." + f.Sel.Name
+					}
+				}
 				return exprStr(f.X) + "." + f.Sel.Name
 			}
 			return "?"
